@@ -1356,7 +1356,8 @@ class Bits:
     def _findall_lsb0(self, bs: Bits, start: int, end: int, count: Optional[int],
                       bytealigned: bool) -> Iterable[int]:
         assert start <= end
-        assert bitstring.options.lsb0
+        # (This is a generator: it runs when the iterator is advanced, when the lsb0 option may already have been switched
+        # back. The numbering is the one in force when findall() was called; nothing below depends on the option.)
 
         new_slice = bitstring.bitstore.offset_slice_indices_lsb0(slice(start, end, None), len(self))
         msb0_start, msb0_end = self._validate_slice(new_slice.start, new_slice.stop)
